@@ -131,7 +131,7 @@ class Exec:
         self.entry_env = Env(entry_vars, entry_heap)
         self.entry_env.vars = {**entry_vars, "trace": VSeq("list[int]", st.trace)}
         pre = []
-        for r in c.requires:
+        for r in list(c.requires) + list(c.body_requires):
             pre.append(Pure(self.ctx, self.entry_env).b(_parse_spec(r)))
         if self.fd.name == "__init__" and "self" in st.vars:
             st.vars["__ctor__"] = st.vars["self"]
@@ -167,6 +167,7 @@ class Exec:
         return Env(vars_, s.heap, old=self.entry_env)
 
     def check_return(self, s: St, v: V):
+        s = self.ghost_calls(self.c.calls, s)
         self.cur = s
         self.ret_paths += 1
         self.obls.append(Obl(f"{self.c.qualname}/cover:return#{self.ret_paths}@L{self.line}", self.line, s.pc, z3.BoolVal(True), "cover"))
@@ -775,6 +776,7 @@ class Exec:
                     where = "continue" if kind == "continue" else "end-of-body"
                     self.line = getattr(node, "lineno", self.line)
                     s3 = s3.assume(*self.slice_hints(invs, inv_env(b), inv_env(s3)))
+                    s3 = self.ghost_calls(spec.get("calls", []), s3)
                     check_invs(s3, f"preserved@{where}")
                     if d0 is not None:
                         d1 = Pure(self.ctx, inv_env(s3)).ev(_parse_spec(dec)).t
@@ -1081,11 +1083,19 @@ class Exec:
                 k = 1
                 lo = z3.IntVal(0)
                 hi = n
+                def bound(v, default):
+                    # a None bound means "from the start" / "to the end"
+                    if isinstance(v, VNone):
+                        return default
+                    if isinstance(v, VOpt):
+                        return z3.If(v.isnone, default, _clamp(v.inner.t, n))
+                    return _clamp(v.t, n)
+
                 if e.slice.lower is not None:
-                    lo = _clamp(vals[k].t, n)
+                    lo = bound(vals[k], z3.IntVal(0))
                     k += 1
                 if e.slice.upper is not None:
-                    hi = _clamp(vals[k].t, n)
+                    hi = bound(vals[k], n)
                 ln = z3.If(hi - lo > 0, hi - lo, 0)
                 out.append((VSeq(base.kind, z3.SubSeq(base.t, lo, ln), fresh=True), s))
             return out
@@ -1530,7 +1540,26 @@ class Exec:
                         self.pending.append((s4, payload))
         return out
 
+    def ghost_calls(self, calls, st: St):
+        """ground instances of separately proved lemmas (like a lemma call in Dafny): the
+        arguments are expressions over the current locals and parameters"""
+        if not calls:
+            return st
+        from .lemmas import lemma_instance
+
+        vars_ = {**self.entry_env.vars, **{k: v for k, v in st.vars.items() if not k.startswith("__")}}
+        env = Env(vars_, st.heap, old=self.entry_env)
+        facts = []
+        for name, args in calls:
+            try:
+                vals = [Pure(self.ctx, env).ev(_parse_spec(a)) for a in args]
+            except Unsupported:
+                continue  # a local of that name does not exist on this path
+            facts.append(lemma_instance(self.ctx, name, vals))
+        return st.assume(*facts)
+
     def check_class_invariant(self, o: VObj, st: St):
+        st = self.ghost_calls(self.c.calls, st)
         """a newly constructed object must satisfy its class invariant (it is assumed for
         every object read later)"""
         todo = [o.kind]
